@@ -386,7 +386,30 @@ func checkModule(c Case) error {
 		uniVals[k] = v
 	}
 
-	g, err := starlark.ExecFileOptions(&syntax.FileOptions{Set: c.Set}, thread, "mod.star", c.Src, pre)
+	// A value the host hands out through load: it is bound to a file-local name, not to a global, nothing of the module
+	// captures it, so it is not reachable from the globals - it must be mutable while the module runs and afterwards.
+	hostReg := starlark.NewList([]starlark.Value{starlark.MakeInt(0)})
+	thread.Load = func(_ *starlark.Thread, module string) (starlark.StringDict, error) {
+		if module != "host.star" {
+			return nil, fmt.Errorf("no module %s", module)
+		}
+		return starlark.StringDict{"HOSTREG": hostReg}, nil
+	}
+	src := c.Src
+	loadsHost := len(c.Src)%3 != 0
+	if loadsHost {
+		src = "load(\"host.star\", \"HOSTREG\")\nHOSTREG.append(len(HOSTREG))\n" + c.Src
+	}
+	g, err := starlark.ExecFileOptions(&syntax.FileOptions{Set: c.Set}, thread, "mod.star", src, pre)
+	if loadsHost {
+		if hostReg.Len() != 2 {
+			return fmt.Errorf("a list obtained through load could not be appended to while the module ran (len %d, err=%v)\n%s", hostReg.Len(), err, src)
+		}
+		if e := hostReg.Append(starlark.MakeInt(99)); e != nil {
+			return fmt.Errorf("a list obtained through load (not bound to a global, captured by nothing) rejects mutation after the module ended: %v\n%s", e, src)
+		}
+		vk.S.Class("loaded-host-value-stays-mutable")
+	}
 	if err != nil {
 		if _, ok := err.(*starlark.EvalError); !ok {
 			return fmt.Errorf("generated module is statically invalid: %v\n%s", err, c.Src)
